@@ -138,15 +138,36 @@ func c20EnvCopy(c *Ctx, ix *PkgIndex, ec envCopy) {
 			}
 			return true
 		})
+		// the (single) assigned expression, analysed by type rather than by the closure's parameter name
+		var rhs ast.Expr
+		ast.Inspect(l, func(n ast.Node) bool {
+			if as, ok := n.(*ast.AssignStmt); ok && len(as.Lhs) == 1 && len(as.Rhs) == 1 && isField(info, as.Lhs[0], fPath) {
+				rhs = as.Rhs[0]
+			}
+			return true
+		})
 		if k == "ENDPOINT" {
-			c.Check(len(srcs) == 1 && srcs[0] == "path.Join(u.Path, "+ec.defaultPath+")", "R3", key, at(ix.M, l.Pos()), "URLPath ← "+strings.Join(srcs, ","),
-				"generic endpoint: URLPath ← "+strings.Join(srcs, ",")+", specified path.Join(u.Path, "+ec.defaultPath+")")
+			good := false
+			if call, ok := unparen(rhs).(*ast.CallExpr); ok && len(srcs) == 1 && isCallTo(info, call, "path.Join") && len(call.Args) == 2 {
+				k2 := constObj(info, call.Args[1])
+				good = isURLPath(info, call.Args[0]) && k2 != nil && k2.Name() == ec.defaultPath
+			}
+			c.Check(good, "R3", key, at(ix.M, l.Pos()), "URLPath ← "+strings.Join(srcs, ","),
+				"generic endpoint: URLPath ← "+strings.Join(srcs, ",")+", specified path.Join(<url>.Path, "+ec.defaultPath+")")
 		} else {
-			// verbatim: u.Path with "/" for empty, never the default path
+			// verbatim: <url>.Path (possibly through a local) with "/" for empty, never the default path
 			okV := len(srcs) == 1 && !usesDefault
 			if okV {
-				// the assigned variable derives from u.Path
-				okV = srcs[0] == "u.Path" || srcs[0] == "path"
+				okV = isURLPath(info, rhs)
+				if v := objOf(info, rhs); v != nil && !okV {
+					// a local defined from <url>.Path
+					ast.Inspect(l, func(n ast.Node) bool {
+						if as, ok := n.(*ast.AssignStmt); ok && as.Tok == token.DEFINE && len(as.Lhs) == 1 && len(as.Rhs) == 1 && objOf(info, as.Lhs[0]) == v && isURLPath(info, as.Rhs[0]) {
+							okV = true
+						}
+						return true
+					})
+				}
 			}
 			root := false
 			ast.Inspect(l, func(n ast.Node) bool {
@@ -155,7 +176,7 @@ func c20EnvCopy(c *Ctx, ix *PkgIndex, ec envCopy) {
 				}
 				return true
 			})
-			c.Check(okV && root, "R3", key, at(ix.M, l.Pos()), "URLPath ← u.Path (\"/\" when empty)", "signal-specific endpoint is not used verbatim (default path appended: "+boolStr(usesDefault)+")")
+			c.Check(okV && root, "R3", key, at(ix.M, l.Pos()), "URLPath ← <url>.Path (\"/\" when empty)", "signal-specific endpoint is not used verbatim (default path appended: "+boolStr(usesDefault)+")")
 		}
 		// Endpoint host
 	}
@@ -213,7 +234,7 @@ func c20EnvCopy(c *Ctx, ix *PkgIndex, ec envCopy) {
 					if good {
 						good, _ = g.DominatedByEdges(calls[0], func(e *GEdge) bool {
 							return edgeImplies(e, func(cnd ast.Expr, pol int) bool {
-								nn, ok := nilCmp(einfo, cnd, pol, func(x ast.Expr) bool { v, isV := objOf(einfo, x).(*types.Var); return isV && v.Name() == "err" })
+								nn, ok := nilCmp(einfo, cnd, pol, func(x ast.Expr) bool { return isErrVar(einfo, x) })
 								return ok && !nn
 							})
 						})
@@ -338,7 +359,7 @@ func c20LogConfig(c *Ctx, ix *PkgIndex, m otlpMod) {
 				// dominated by err == nil
 				d, _ := g.DominatedByEdges(stores[0], func(e *GEdge) bool {
 					return edgeImplies(e, func(cnd ast.Expr, pol int) bool {
-						nn, ok := nilCmp(info, cnd, pol, func(x ast.Expr) bool { v, isV := objOf(info, x).(*types.Var); return isV && v.Name() == "err" })
+						nn, ok := nilCmp(info, cnd, pol, func(x ast.Expr) bool { return isErrVar(info, x) })
 						return ok && !nn
 					})
 				})
@@ -463,7 +484,7 @@ func c20LogConfig(c *Ctx, ix *PkgIndex, m otlpMod) {
 					usesDefault = true
 				}
 			case *ast.BinaryExpr:
-				if x.Op == token.ADD && strings.Contains(exprStr(x.X), "u.Path") {
+				if x.Op == token.ADD && isURLPath(info, x.X) {
 					joins = true
 				}
 			case *ast.CallExpr:
@@ -705,7 +726,7 @@ func c20SDK(c *Ctx) {
 			})
 			d2, _ := g.DominatedByEdges(x, func(e *GEdge) bool {
 				return edgeImplies(e, func(cnd ast.Expr, pol int) bool {
-					nn, ok := nilCmp(minfo, cnd, pol, func(y ast.Expr) bool { v, isV := objOf(minfo, y).(*types.Var); return isV && v.Name() == "err" })
+					nn, ok := nilCmp(minfo, cnd, pol, func(y ast.Expr) bool { return isErrVar(minfo, y) })
 					return ok && !nn
 				})
 			})
@@ -755,7 +776,7 @@ func c20SDK(c *Ctx) {
 					if hasArg != nil && sameVar(tinfo, e, hasArg) {
 						return constant.MakeBool(arg), true
 					}
-					if v, ok := objOf(tinfo, e).(*types.Var); ok && v.Name() == "ok" {
+					if isBoolVar(tinfo, e) && !sameVar(tinfo, e, hasArg) {
 						return constant.MakeBool(true), true
 					}
 					return nil, false
@@ -825,7 +846,7 @@ func c20SDK(c *Ctx) {
 		for _, x := range g.Nodes {
 			for _, e := range x.Succs {
 				if edgeImplies(e, func(cnd ast.Expr, pol int) bool {
-					nn, ok := nilCmp(einfo, cnd, pol, func(y ast.Expr) bool { v, isV := objOf(einfo, y).(*types.Var); return isV && v.Name() == "err" })
+					nn, ok := nilCmp(einfo, cnd, pol, func(y ast.Expr) bool { return isErrVar(einfo, y) })
 					return ok && nn
 				}) {
 					s, _ := g.ReachFromEdge(e, nil)
